@@ -594,7 +594,7 @@ def replay_paths(inputs):
 
             def cost(q):
                 return len(q) - 1 if key is None else sum(G[a][b][key] for a, b in zip(q, q[1:]))
-            if G.number_of_nodes() <= 8 or not diagonal:
+            if G.number_of_nodes() <= 8 or (not diagonal and G.number_of_nodes() <= 12):
                 best = min(cost(q) for q in nx.all_simple_paths(G, start, stop))
             else:  # all-simple-paths explodes on dense graphs: fall back to an independent Bellman-Ford length
                 best = (nx.shortest_path_length(G, start, stop) if key is None else
@@ -677,6 +677,17 @@ def bounded_paths(tier, seed):
         st.case(inp, nontrivial=len(set(shape)) > 1 and bool(blocked.any()), sample={'shape': shape, 'diagonal': inp['diagonal']})
         if r['reproduced']:
             st.violation('paths', r['detail'], 'verif.props.c10:replay_paths', inp)
+    # fully open grids with two or three axes of length >= 3 (diagonal steps through two periodic faces at once), both neighbourhoods
+    for shp in ((3, 3, 1), (3, 3, 3), (3, 4, 2), (4, 3, 3)):
+        Fo = (np.arange(int(np.prod(shp))).reshape(shp) % 7) * 0.25
+        for dg in (True, False):
+            inp = {'F': Fo.tolist(), 'diagonal': dg, 'start': [shp[0] - 1, 0, 0], 'stop': [0, shp[1] - 1, 0], 'peaks': [[0, 0, 0]], 'percolate': ['x']}
+            r = st.guard(replay_paths, inp)
+            if r is None:
+                continue
+            st.case(inp, nontrivial=True, sample=None)
+            if r['reproduced']:
+                st.violation('open-grid', r['detail'], 'verif.props.c10:replay_paths', inp)
     # structured percolation cases: an enclosed (non-percolating) peak listed first, then two percolating channels of different cost, in every order
     import itertools
     big = 1.7976931348623157e308
